@@ -98,5 +98,49 @@ theorem shift_zero_eq {f : Frame} {n : Nat} (hr : f.RectN n) (hn : (n : Int) < 2
   simp only at hname
   simp [id, ← hname]
 
+/-- row `i` of `Shift(p)` is row `i - p` of the source, all cells together, when that position exists, and the
+all-nil row otherwise -/
+theorem rowCells_shift {f : Frame} {n : Nat} (hr : f.RectN n) (p : Int) (hp : inInt64 p)
+    (hn : (n : Int) < 2 ^ 62) {i : Nat} (hi : i < n) :
+    (f.shift p).rowCells i =
+      (if 0 ≤ (i : Int) - p ∧ (i : Int) - p < n then f.rowCells ((i : Int) - p).toNat
+       else List.replicate f.keys.length Cell.nil) := by
+  by_cases h : 0 ≤ (i : Int) - p ∧ (i : Int) - p < n
+  · rw [if_pos h]
+    simp only [rowCells, shift, List.map_map, Function.comp_def]
+    apply List.map_congr_left
+    intro kc hkc
+    rw [shiftCol_getD (hr kc hkc).1 hn hp hi, if_pos h]
+  · rw [if_neg h]
+    simp only [rowCells, shift, keys, List.map_map, Function.comp_def, List.length_map]
+    rw [List.eq_replicate_iff]
+    refine ⟨by simp, ?_⟩
+    intro c hc
+    obtain ⟨kc, hkc, rfl⟩ := List.mem_map.mp hc
+    rw [shiftCol_getD (hr kc hkc).1 hn hp hi, if_neg h]
+
+/-- every row of `Shift(p)` is a whole row of the source or the all-nil row -/
+theorem shift_rows_mem {f : Frame} {n : Nat} (hr : f.RectN n) (p : Int) (hp : inInt64 p)
+    (hn : (n : Int) < 2 ^ 62) :
+    ∀ r ∈ (f.shift p).rows, r ∈ f.rows ∨ r = List.replicate f.keys.length Cell.nil := by
+  intro r hmem
+  by_cases hne : f = []
+  · subst hne
+    simp [shift, rows, nrows] at hmem
+  · have hne' : f.shift p ≠ [] := by
+      intro h; exact hne (List.map_eq_nil_iff.mp h)
+    have hn1 : f.nrows = n := nrows_of_rectN hr hne
+    have hn2 : (f.shift p).nrows = n := nrows_of_rectN (shift_rectN hr p) hne'
+    simp only [rows, hn2, List.mem_map, List.mem_range] at hmem
+    obtain ⟨i, hi, rfl⟩ := hmem
+    rw [rowCells_shift hr p hp hn hi]
+    by_cases h : 0 ≤ (i : Int) - p ∧ (i : Int) - p < n
+    · rw [if_pos h]
+      left
+      simp only [rows, hn1, List.mem_map, List.mem_range]
+      exact ⟨((i : Int) - p).toNat, by omega, rfl⟩
+    · rw [if_neg h]
+      right; rfl
+
 end Frame
 end Goframe
